@@ -42,3 +42,19 @@ for be in BACKS:
         'void forward_helper(event_t incomingEvent, fwd_fct_t* forward_fct, _Bool OwnEvent)', 'entryexit_back.spec.h',
         xform=back_xform([], refparams=(), rewrites=[dict(name='function-bool', pat='if ( forward_fct )', rep='if ( forward_fct -> set )', min=1, max=1),
                                                      dict(name='function-call', pat='forward_fct ( incomingEvent ) ;', rep='call_forward ( forward_fct , incomingEvent ) ;', min=1, max=1)]), replay=['hist']))
+
+for be in BACKS:
+    SM = be + '/state_machine.hpp'
+    UNITS.append(Unit(be + '.get_state_by_id', ['C03', 'C13'], be,
+        [Part(SM, [], 'BaseState * get_state_by_id ( int id )', xform=back_xform([], refparams=(), rewrites=[
+              dict(name='result-handle', pat='const BaseState * result_state = 0 ;', rep='stref_t result_state = 0 ; const stref_t g_target = at_key ( id , self -> m_substate_list ) ;', min=1, max=1),
+              dict(name='FOREACH-functor', pat='for_each < state_list , $*W ( get_state_id_helper ( id , & result_state , $t ) ) ;',
+                   rep='for ( type_t State = 0 ; State != g_nstates ; ++ State ) LOOPC { get_state_id_helper_call ( State , id , & result_state , self ) ; }', min=1, max=1),
+              dict(name='CAST-const', pat='( BaseState * ) ( result_state )', rep='( result_state )', min=0, max=1)])),
+         Part(SM, ['struct get_state_id_helper'], 'void operator ( ) ( wrap < StateType > const & )', xform=back_xform(['get_state_id', 'at_key'], refparams=(), rewrites=[
+              dict(name='handle-of', pat='& at_key (', rep='at_key (', min=1, max=1)]))],
+        'stref_t get_state_by_id(fsm_t* self, int id)', 'entryexit_back.spec.h',
+        file_scope='/* functor object erased: constructor arguments (id, &result_state, this) are passed per call in constructor order */\n'
+                   'static void get_state_id_helper_call(type_t StateType, int searched_id, stref_t* result_state, fsm_t* self){@1}\n'
+                   '#define LOOPC __CPROVER_assigns(State, result_state) __CPROVER_loop_invariant(0 <= State && State <= g_nstates && result_state == ((0 <= id && id < State) ? g_target : 0)) __CPROVER_decreases(g_nstates - State)\n',
+        compose='@0', force_loop_contracts=True, replay=['order']))
